@@ -415,6 +415,12 @@ func (reader *DataReader) next() ([]byte, *DataPos, error) {
 			reader.blockID, reader.offset = pos.BlockID, pos.Offset
 			return nil, nil, io.EOF
 		}
+		// 全零的 chunk 头部不可能由写入方产生 (校验和不为 0), 说明该位置之后尚未写入数据
+		// mmap 实现异常退出后会遗留预分配的全零空间, 同样视为文件结束
+		if zeroChunkHeader(reader.blockBuf[reader.offset:size]) {
+			reader.blockID, reader.offset = pos.BlockID, pos.Offset
+			return nil, nil, io.EOF
+		}
 
 		// 对当前 chunk 解码
 		data, chunkType, err := DecodeChunk(reader.blockBuf[reader.offset:size])
@@ -449,6 +455,20 @@ func incompleteChunk(data []byte) bool {
 	}
 	length := binary.LittleEndian.Uint16(data[4:6])
 	return chunkHeaderSize+int(length) > len(data)
+}
+
+// 判断 chunk 头部是否全为零
+func zeroChunkHeader(data []byte) bool {
+	if len(data) < chunkHeaderSize {
+		return false
+	}
+	// 从长度和类型字段开始判断, 有效 chunk 的长度必不为 0
+	for i := chunkHeaderSize - 1; i >= 0; i-- {
+		if data[i] != 0 {
+			return false
+		}
+	}
+	return true
 }
 
 // Position 返回读取游标的绝对偏移量, 遍历结束后即为有效数据的结束位置
